@@ -265,6 +265,18 @@ Fixpoint sim_h (hold : list nat) (cp : cfg * parkst) (acts : list dact) : list o
 
 Definition sim (c : cfg) (acts : list dact) : list obs * cfg := sim_h [] (c, None) acts.
 
+(** the configuration at the quiescence after each action (for SyncWait probes inside a script) *)
+Fixpoint sim_cfgs_h (hold : list nat) (cp : cfg * parkst) (acts : list dact) : list cfg :=
+  match acts with
+  | [] => []
+  | a :: r =>
+    match act hold cp a with
+    | None => []
+    | Some (cp', _, hold') => fst cp' :: sim_cfgs_h hold' cp' r
+    end
+  end.
+Definition sim_cfgs (c : cfg) (acts : list dact) : list cfg := sim_cfgs_h [] (c, None) acts.
+
 End sim.
 
 (** ** the C07 case *)
@@ -506,3 +518,59 @@ Proof.
   intros El Hlt. destruct (error_aborts c k from to GErr SEGetter El Hlt (or_introl (conj eq_refl eq_refl))) as (A & B & C & _ & _ & F & _).
   unfold observe, local_head, state_height. cbn zeta. cbn [o_err o_head o_local o_height]. rewrite A, B, C, F. repeat split; reflexivity.
 Qed.
+
+(** * SyncWait inside the scripts (extra driver [wait], harness/c07/c07_wait_test.go)
+
+    A SyncWait call started at the quiescence after action number i (1-based):
+    [before] = it returned nil at once, [after] = it had returned nil when the
+    script was over. *)
+Record case07w := Case07w { kw_case : case07; kw_waits : list (N * bool * bool) }.
+
+(** the model's answer for a SyncWait started in configuration [c] when the run ends in [final]:
+    it returns at once iff [sync_wait_returns c]; otherwise it sits in GetByHeight(State.ToHeight)
+    and returns as soon as the store serves that height *)
+Definition wait_model (c final : cfg) : bool * bool :=
+  let b := sync_wait_returns c in
+  (b, b || rs_has (ss_to (c_state c)) (rs_log (c_store final))).
+
+Definition model07w (k : case07w) : list (bool * bool) :=
+  let k0 := kw_case k in
+  let u := k_init k0 ++ k_chain k0 in
+  let acts := map fst (k_acts k0) in
+  let g := uses_gate acts in
+  let c0 := init_cfg (k_tail k0) (k_init k0) in
+  let cfgs := sim_cfgs (k_drift k0) 0 g u c0 acts in
+  let final := snd (sim (k_drift k0) 0 g u c0 acts) in
+  map (fun w => match nth_error cfgs (N.to_nat (fst (fst w)) - 1) with
+                | Some c => wait_model c final
+                | None => (false, false)
+                end) (kw_waits k).
+
+Definition bb_eqb (x y : bool * bool) : bool := Bool.eqb (fst x) (fst y) && Bool.eqb (snd x) (snd y).
+
+Definition agree07w (k : case07w) : bool :=
+  agree07 (kw_case k)
+  && list_eqb bb_eqb (model07w k) (map (fun w => (snd (fst w), snd w)) (kw_waits k)).
+
+(** the property on the observation: a SyncWait that has returned stays returned, and once the
+    script is over with the final SyncWait returning (nothing in progress any more) no earlier
+    SyncWait call is still blocked *)
+Definition ok07w (k : case07w) : bool :=
+  ok07 (kw_case k)
+  && forallb (fun w => implb (snd (fst w)) (snd w) && implb (k_wait (kw_case k)) (snd w)) (kw_waits k).
+
+Definition chk07w (k : case07w) : bool * bool * N := (agree07w k, ok07w k, 0).
+
+(** SyncWait blocks only while a sync is in progress: the target of the recorded sync is above
+    the height the store reports *)
+Lemma sync_wait_blocks_only_during_sync c :
+  sync_wait_returns c = false -> state_height c < ss_to (c_state c) /\ rs_has (ss_to (c_state c)) (rs_log (c_store c)) = false.
+Proof.
+  unfold sync_wait_returns, state_finished. intros H. apply Bool.orb_false_iff in H. destruct H as [H1 H2].
+  split; [|exact H2]. apply N.leb_gt. exact H1.
+Qed.
+
+(** the model's waiter: returned at once implies returned at the end, and it has returned at the
+    end iff it returned at once or the final store serves the sync target it read *)
+Lemma wait_model_mono c final : fst (wait_model c final) = true -> snd (wait_model c final) = true.
+Proof. unfold wait_model. cbn. intros ->. reflexivity. Qed.
